@@ -305,6 +305,108 @@ func c15LargeGarbage(r *rng, tier string, res *Result) {
 	}
 }
 
+// cBackgroundDuringRecovery: a database opened with background compaction (and sync) enabled, after
+// an unclean shutdown, on a slow device: whatever the background worker does, the recovering Open
+// must return the acknowledged contents, and again after further writes and a second crash.
+func cBackgroundDuringRecovery(r *rng, tier string, res *Result) {
+	for round := 0; round < scale(tier, 3, 20); round++ {
+		t := tfs.New()
+		mk := func() *pogreb.Options {
+			o := &pogreb.Options{FileSystem: t}
+			pogreb.VerifSetThresholds(o, 1024, 512, math.Float32frombits(fragBits(0.05)))
+			return o
+		}
+		db, err := pogreb.Open("db", mk())
+		if err != nil {
+			return
+		}
+		ref := map[string]string{}
+		key := func(i int) string { return fmt.Sprintf("key-%04d", i) }
+		for gen := 0; gen < 3; gen++ {
+			for i := 0; i < 150; i++ {
+				if gen > 0 && r.chance(40) {
+					continue
+				}
+				if gen == 2 && r.chance(15) {
+					_ = db.Delete([]byte(key(i)))
+					delete(ref, key(i))
+					continue
+				}
+				v := fmt.Sprintf("value-%d-%04d-%s", gen, i, strings.Repeat("x", r.intn(30)))
+				if db.Put([]byte(key(i)), []byte(v)) == nil {
+					ref[key(i)] = v
+				}
+			}
+		}
+		check := func(db *pogreb.DB, when string) bool {
+			bad := ""
+			if int(db.Count()) != len(ref) {
+				bad = fmt.Sprintf("Count() = %d, %d keys acknowledged", db.Count(), len(ref))
+			}
+			for i := 0; i < 150 && bad == ""; i++ {
+				got, err := db.Get([]byte(key(i)))
+				want, live := ref[key(i)]
+				switch {
+				case err != nil:
+					bad = fmt.Sprintf("Get(%s): %v", key(i), err)
+				case live && string(got) != want:
+					bad = fmt.Sprintf("Get(%s) = %q, acknowledged value is %q", key(i), got, want)
+				case !live && got != nil:
+					bad = fmt.Sprintf("Get(%s) = %q, the key was deleted", key(i), got)
+				}
+			}
+			if bad != "" {
+				res.Findings = append(res.Findings, &Finding{Kind: "spec", Case: fmt.Sprintf("recovery-with-background-worker/%d", round), Cmd: when,
+					Impl: []string{bad}, Expected: []string{"exactly the acknowledged contents"},
+					Program: []string{"3 generations of puts / deletes over 150 keys, 1 KiB segments", "unclean shutdown", "Open with BackgroundCompactionInterval = 200us on a slow device", "5 puts", "unclean shutdown", "Open"}})
+				return false
+			}
+			return true
+		}
+		crash := func() *tfs.FS {
+			n := tfs.CrashKeepPending(t.Base(), t.Events(0, t.NumEvents()), t.NumEvents(), 0)
+			return n
+		}
+		t = crash()
+		t.ReadDelay = 300 * time.Microsecond
+		o := mk()
+		o.BackgroundCompactionInterval = 200 * time.Microsecond
+		o.BackgroundSyncInterval = 300 * time.Microsecond
+		var db2 *pogreb.DB
+		func() {
+			defer func() {
+				if rec := recover(); rec != nil {
+					res.Findings = append(res.Findings, &Finding{Kind: "spec", Case: fmt.Sprintf("recovery-with-background-worker/%d", round), Cmd: "recovering Open",
+						Impl: []string{fmt.Sprint("panic: ", rec)}, Expected: []string{"open ok"}, Program: []string{}})
+				}
+			}()
+			db2, err = pogreb.Open("db", o)
+		}()
+		if db2 == nil || err != nil {
+			if err != nil {
+				res.Findings = append(res.Findings, &Finding{Kind: "spec", Case: fmt.Sprintf("recovery-with-background-worker/%d", round), Cmd: "recovering Open",
+					Impl: []string{err.Error()}, Expected: []string{"open ok"}, Program: []string{}})
+			}
+			return
+		}
+		t.ReadDelay = 0
+		ok := check(db2, "after the recovering Open (background compaction enabled)")
+		if ok {
+			for i := 0; i < 5; i++ {
+				v := fmt.Sprintf("late-%d", i)
+				if db2.Put([]byte(key(i)), []byte(v)) == nil {
+					ref[key(i)] = v
+				}
+			}
+		}
+		_ = db2.Close() // stops the worker; the crash image below is the state before this Close
+		if !ok {
+			return
+		}
+		res.Tags["recoveries_with_background_worker"]++
+	}
+}
+
 // c14Race returns the text of a fault / panic observed in a reader, or "".
 func c14Race(r *rng, dir string, withCompact bool) string {
 	o := &pogreb.Options{FileSystem: fs.OSMMap}
@@ -369,7 +471,71 @@ func c14Race(r *rng, dir string, withCompact bool) string {
 }
 
 // ---------------------------------------------------------------- C19: recovery cost bounded by the data on disk
+// c19OnOS: the same bound on the plain OS file system (whose Slice / read paths allocate on their
+// own): a database, an unclean shutdown, a garbage header claiming 256-300 MiB, recovering Open.
+func c19OnOS(r *rng, tier string, res *Result) {
+	tmp, err := os.MkdirTemp("", "pgh-c19-")
+	if err != nil {
+		return
+	}
+	defer os.RemoveAll(tmp)
+	hdrs := [][]byte{
+		{1, 0, 0, 0, 0, 0x10},             // put, 256 MiB value
+		{1, 0, 0, 0, 0, 0x90},             // delete bit set, 256 MiB
+		{0xff, 0xff, 0, 0, 0xc0, 0x12},    // 65535-byte key, 300 MiB value
+	}
+	for hi, hdr := range hdrs {
+		for _, fsc := range []struct {
+			name string
+			fsys fs.FileSystem
+		}{{"os", fs.OS}, {"osmmap", fs.OSMMap}} {
+			dir := filepath.Join(tmp, fmt.Sprintf("d-%s-%d", fsc.name, hi))
+			db, err := pogreb.Open(dir, &pogreb.Options{FileSystem: fsc.fsys})
+			if err != nil {
+				continue
+			}
+			for i := 0; i < 100; i++ {
+				_ = db.Put([]byte(fmt.Sprintf("k%03d", i)), r.bytes(10+r.intn(20)))
+			}
+			_ = db.Close()
+			_ = os.WriteFile(filepath.Join(dir, "lock"), []byte{1}, 0644)
+			seg := filepath.Join(dir, pogreb.VerifSegmentName(0, 1))
+			f, err := os.OpenFile(seg, os.O_WRONLY|os.O_APPEND, 0644)
+			if err != nil {
+				continue
+			}
+			tail := append(append([]byte{}, hdr...), r.bytes([]int{0, 3, 1000}[hi%3])...)
+			_, _ = f.Write(tail)
+			_ = f.Close()
+			st, _ := os.Stat(seg)
+			runtime.GC()
+			var m0, m1 runtime.MemStats
+			runtime.ReadMemStats(&m0)
+			db, err = pogreb.Open(dir, &pogreb.Options{FileSystem: fsc.fsys})
+			runtime.ReadMemStats(&m1)
+			alloc := int64(m1.TotalAlloc - m0.TotalAlloc)
+			bound := 16*st.Size() + (8 << 20)
+			if err != nil || alloc > bound {
+				res.Findings = append(res.Findings, &Finding{Kind: "spec", Case: fmt.Sprintf("C19/fs.%s/%d", fsc.name, hi),
+					Cmd:      "recovering Open on fs." + fsc.name + " with tail " + interp.Hex(hdr) + "...",
+					Impl:     []string{fmt.Sprintf("allocated %d bytes for a segment of %d bytes (err %v)", alloc, st.Size(), err)},
+					Expected: []string{fmt.Sprintf("at most %d bytes", bound)},
+					Program:  []string{"open; 100 x put; close", "write lock file; append " + interp.Hex(tail[:6]) + " + " + fmt.Sprint(len(tail)-6) + " bytes to 00000-1.psg", "open"}})
+			}
+			if db != nil {
+				if c := db.Count(); c != 100 {
+					res.Findings = append(res.Findings, &Finding{Kind: "spec", Case: fmt.Sprintf("C19/fs.%s/%d", fsc.name, hi), Cmd: "Count after recovery",
+						Impl: []string{fmt.Sprint(c)}, Expected: []string{"100"}, Program: []string{}})
+				}
+				_ = db.Close()
+			}
+			res.Tags["recoveries_on_fs_"+fsc.name]++
+		}
+	}
+}
+
 func genC19(r *rng, tier string, res *Result) {
+	c19OnOS(r, tier, res)
 	n := scale(tier, 60, 5000)
 	keySizes := []int{0, 1, 65535}
 	valSizes := []uint32{0, 1, 1 << 20, 1 << 29, 1<<31 - 1}
